@@ -184,6 +184,10 @@ def install_unexpected(I):
     rejects them) instead of making the obligation undecided"""
 
     def unknown(I_, st, fn, args, kwargs, node):
+        simple = getattr(fn, "__name__", "") or ""
+        if (getattr(fn, "__module__", "") or "").startswith("jinja2") and simple.startswith("_") and not simple.startswith("__") \
+                and getattr(I_, "auto_inline_private", False):
+            return None  # a private helper of the code under contract: the engine executes its real body
         nm = getattr(fn, "__qualname__", None) or getattr(fn, "__name__", None) or repr(fn)
         if isinstance(fn, BoundMethod):
             nm = f"{fn.recv!r}.{fn.name}"
